@@ -548,7 +548,11 @@ func sameValue(a, b Value) bool {
 // ---------------- memory access ----------------
 
 func (x *Exec) loadPath(v Value, path []PathElem) Value {
-	if r, ok := v.(ArrayRef); ok {
+	for i := 0; i < 4; i++ {
+		r, ok := v.(ArrayRef)
+		if !ok {
+			break
+		}
 		v = x.heapGet(r.Obj)
 	}
 	if len(path) == 0 {
